@@ -771,6 +771,7 @@ func r03HalfOpenTables(c *core.Ctx) {
 	}
 	// (vii) lineIntersects applies the ownership exceptions to border touches
 	r03LineIntersectsExceptions(c, li)
+	r03OverlapOnInclusiveEdge(c)
 	c.Floor(R, 9)
 }
 
@@ -1000,6 +1001,157 @@ func r03LineIntersectsExceptions(c *core.Ctx, li *core.Func) {
 		}
 		c.Check(R, "segment-pixel-test/no-edge-no-hit/"+li.Name, li.Decl.Pos(), okEnd, "when no edge decides, the segment does not touch the pixel", "lineIntersects does not return false after all edges were tested without a hit")
 	}
+}
+
+// r03OverlapOnInclusiveEdge decides lineOverlapsInclusiveEdge as a decision table: for a vertical or horizontal edge,
+// the segment overlaps it iff both endpoints lie on the edge's line, the segment is not a point along it, and one
+// endpoint lies within the edge's range without being the edge's exclusive tip.
+func r03OverlapOnInclusiveEdge(c *core.Ctx) {
+	const R = "R03"
+	f := c.Anchor(R, "pointindex.lineOverlapsInclusiveEdge")
+	if f == nil || f.SSA == nil {
+		return
+	}
+	fn := f.SSA
+	construct := "overlap-with-inclusive-edge-is-exact/" + f.Name
+	if len(fn.Params) != 3 {
+		c.Bad(R, construct, f.Decl.Pos(), "unexpected signature")
+		return
+	}
+	line, edgeI, edge := ssa.Value(fn.Params[0]), ssa.Value(fn.Params[1]), ssa.Value(fn.Params[2])
+	// ordinate descriptor: which array (L/E), which endpoint, which axis
+	type ord struct {
+		base string
+		k    int64
+		ax   int64
+	}
+	var ordOf func(fr *boolFrame, v ssa.Value) (ord, bool)
+	ordOf = func(fr *boolFrame, v ssa.Value) (ord, bool) {
+		ld, ok := v.(*ssa.UnOp)
+		if !ok || ld.Op != token.MUL {
+			return ord{}, false
+		}
+		inner, ok := ld.X.(*ssa.IndexAddr)
+		if !ok {
+			return ord{}, false
+		}
+		ax := int64(-1)
+		if k, ok := inner.Index.(*ssa.Const); ok && k.Value != nil {
+			ax = k.Int64()
+		} else if val, ok := fr.ienv[inner.Index]; ok {
+			ax = val
+		}
+		outer, ok := inner.X.(*ssa.IndexAddr)
+		if !ok || ax < 0 {
+			return ord{}, false
+		}
+		kc, ok := outer.Index.(*ssa.Const)
+		if !ok || kc.Value == nil {
+			return ord{}, false
+		}
+		a, ok := outer.X.(*ssa.Alloc)
+		if !ok {
+			return ord{}, false
+		}
+		switch onceStored(a) {
+		case line:
+			return ord{"L", kc.Int64(), ax}, true
+		case edge:
+			return ord{"E", kc.Int64(), ax}, true
+		}
+		return ord{}, false
+	}
+	pointOf := func(v ssa.Value) (string, bool) {
+		// whole endpoint line[k] / the exclusive tip of the edge
+		if call, ok := v.(*ssa.Call); ok && core.StaticCalleeID(call) == core.ModPath+"/pointindex.getExclusiveTip" && call.Call.Args[0] == edgeI && resolveValue(call.Call.Args[1]) == edge {
+			return "tip", true
+		}
+		if arr, k, ok := elementOf(v); ok && arr == line {
+			return fmt.Sprintf("L%d", k), true
+		}
+		return "", false
+	}
+	var constAx int64
+	atom := func(fr *boolFrame, v ssa.Value) (string, bool, bool) {
+		switch x := v.(type) {
+		case *ssa.BinOp:
+			if x.Op != token.EQL && x.Op != token.NEQ {
+				break
+			}
+			neg := x.Op == token.NEQ
+			if a, ok := ordOf(fr, x.X); ok {
+				if b, ok := ordOf(fr, x.Y); ok {
+					switch {
+					case a.base == "E" && b.base == "E" && a.ax == b.ax && a.k != b.k:
+						if a.ax == 0 {
+							return "EV", neg, true
+						}
+						return "EH", neg, true
+					case a.base != b.base && a.ax == b.ax && a.ax == constAx:
+						l := a
+						if b.base == "L" {
+							l = b
+						}
+						return fmt.Sprintf("A%d", l.k), neg, true
+					case a.base == "L" && b.base == "L" && a.ax == b.ax && a.ax != constAx && a.k != b.k:
+						return "D", !neg, true // D: the two endpoints differ along the edge
+					}
+				}
+			}
+			if p, ok := pointOf(x.X); ok {
+				if q, ok := pointOf(x.Y); ok {
+					if q != "tip" {
+						p, q = q, p
+					}
+					if q == "tip" && (p == "L0" || p == "L1") {
+						return "X" + p[1:], neg, true
+					}
+				}
+			}
+		case *ssa.Call:
+			if core.StaticCalleeID(x) == core.ModPath+"/mathhelp.IBetweenInc" && len(x.Call.Args) == 3 {
+				a, ok1 := ordOf(fr, x.Call.Args[0])
+				e1, ok2 := ordOf(fr, x.Call.Args[1])
+				e2, ok3 := ordOf(fr, x.Call.Args[2])
+				if ok1 && ok2 && ok3 && a.base == "L" && e1.base == "E" && e2.base == "E" && e1.k != e2.k && a.ax != constAx && e1.ax == a.ax && e2.ax == a.ax {
+					return fmt.Sprintf("B%d", a.k), false, true
+				}
+			}
+		}
+		return "", false, false
+	}
+	names := []string{"A0", "A1", "D", "B0", "B1", "X0", "X1"}
+	n := 0
+	for _, cfg := range []struct {
+		ev, eh bool
+		cax    int64
+	}{{true, false, 0}, {false, true, 1}} {
+		constAx = cfg.cax
+		for m := 0; m < 1<<len(names); m++ {
+			as := map[string]bool{"EV": cfg.ev, "EH": cfg.eh}
+			for i, nm := range names {
+				as[nm] = m&(1<<i) != 0
+			}
+			bi := &boolInterp{roleOf: func(*boolFrame, ssa.Value) string { return "" }, atom: atom, assign: as, used: map[string]bool{}}
+			fr := &boolFrame{fn: fn, roles: map[ssa.Value]string{}, env: map[ssa.Value]bool{}}
+			out, err := bi.run(fr, fn.Blocks[0], nil, 0)
+			if err != nil {
+				c.Unknown(R, construct, f.Decl.Pos(), "the overlap decision is not understood: "+err.Error())
+				return
+			}
+			if out.kind != "return" {
+				c.Bad(R, construct, f.Decl.Pos(), "lineOverlapsInclusiveEdge does not return for a straight edge")
+				return
+			}
+			want := as["A0"] && as["A1"] && as["D"] && ((as["B0"] && !as["X0"]) || (as["B1"] && !as["X1"]))
+			n++
+			if out.val != want {
+				c.Bad(R, construct, f.Decl.Pos(), fmt.Sprintf("for endpoint0-on-line=%v endpoint1-on-line=%v differ-along-edge=%v endpoint0-in-range=%v endpoint1-in-range=%v endpoint0-is-exclusive-tip=%v endpoint1-is-exclusive-tip=%v the code answers %v where the rule gives %v: a segment running along (or merely ending on) an owned border is attributed wrongly", as["A0"], as["A1"], as["D"], as["B0"], as["B1"], as["X0"], as["X1"], out.val, want))
+				return
+			}
+		}
+	}
+	c.OK(R, construct, f.Decl.Pos(), fmt.Sprintf("decision table agrees with the rule on all %d valuations (vertical and horizontal edges)", n))
 }
 
 func describeAssign(names []string, a map[string]bool) string {
